@@ -21,7 +21,7 @@ extra={
 'C15': "Found: `Peps2Layers.clone()` with a distinct bra raised TypeError (fix 67830f7).",
 'C16': "`set_cache_maxsize` leaves import-time aliases on the old caches; modelled as is (`Resize` with aliases) - results are unaffected, not a violation.",
 'C17': "Found: 5 defects (fixes 2e227ca, 4c261b3, 9f2812a, 4033486, f1245e7): Z2xU1 config string, empty tensor through legacy dict / HDF5, split of an MPS dictionary with a central block, TriangularLattice geometry lost in both dictionary formats.",
-'C18': "Found by model checking alone: `expmv` never terminated when the retained basis exceeded `ncv_max` and a step was rejected (fix 9c578d6; `KrylovMC_old.cfg` keeps the old rule and must fail). Three open known findings (section 5). False alarm corrected (seed 1 of `vp check`): the relaxation case scaled the time by the norm of the *shifted* map, a narrow spectrum gave `exp(1000)` in the dense reference (NaN); the time is now scaled by the original norm and a non-finite reference is a skipped claim.",
+'C18': "Found by the thorough tier after a seeded change led to the block-coupling operator: `expmv` bounded the Krylov space by the stored size of the start vector and crashed (fix 7330808). Found by model checking alone: `expmv` never terminated when the retained basis exceeded `ncv_max` and a step was rejected (fix 9c578d6; `KrylovMC_old.cfg` keeps the old rule and must fail). Three open known findings (section 5). False alarm corrected (seed 1 of `vp check`): the relaxation case scaled the time by the norm of the *shifted* map, a narrow spectrum gave `exp(1000)` in the dense reference (NaN); the time is now scaled by the original norm and a non-finite reference is a skipped claim.",
 'C19': "Apalache was tried on the group axioms (3.4 s, unbounded integers) in round 0; the registered check uses TLC on the box so that spec and code are compared on the same domain.",
 'C20': "Found: `TriangularLattice(full_patch=True).bonds()` raised TypeError and listed bonds with a missing endpoint (fix c9878f1). Cylinder wrap-around bonds are exempt from fermionic ordering (impossible for any total order).",
 }
